@@ -1097,6 +1097,198 @@ def gen_cl_resp(r, n, tier):
         yield f"cl {fr} {decode_tok(r)} q16 m0 {','.join(steps)}"
 
 
+DRIVER_BIN = __import__("os").path.join(__import__("os").path.dirname(__import__("os").path.abspath(__file__)),
+                                        "..", "lean", ".lake", "build", "bin", "rodbus_model")
+
+
+def model_states(lines):
+    """ask the Lean driver (`clq`) for the model state after each script prefix"""
+    import subprocess
+    p = subprocess.run([DRIVER_BIN], input="\n".join(lines) + "\n", capture_output=True, text=True)
+    out = []
+    for l in p.stdout.splitlines():
+        d = {}
+        for kv in l.split(" ## ")[0].split(" "):
+            if "=" in kv:
+                k, v = kv.split("=", 1)
+                d[k] = v
+        out.append(d)
+    if len(out) != len(lines):
+        raise RuntimeError("driver did not answer every clq line (is lean/.lake/build/bin/rodbus_model built?)")
+    return out
+
+
+class ClScript:
+    def __init__(self, r, framing, q, m, level):
+        self.fr, self.q, self.m, self.level = framing, q, m, level
+        self.steps = []
+        self.reqs = {}          # rid -> descriptor
+        self.nrid = 0
+        self.nhandles = 1
+        self.done = False
+
+    def header(self, word="cl"):
+        return f"{word} {self.fr} {self.level} q{self.q} m{self.m}"
+
+    def line(self, word="cl"):
+        return f"{self.header(word)} {','.join(self.steps) if self.steps else '-'}"
+
+
+def cl_next_step(r, sc, st, focus):
+    """choose the next step of a script from the model state `st`"""
+    alive = st.get("alive") == "1"
+    phase, pos = st.get("phase", "none"), st.get("pos", "none")
+    queue = int(st.get("queue", "0") or 0)
+    handles = st.get("handles", "1")
+    live = [i for i, c in enumerate(handles) if c == "1"]
+    h = r.pick(live) if live else 0
+    now = int(st.get("now", "0") or 0)
+
+    def submit(style=None, valid=True, timeout=None):
+        kind, unit, args, d = cl_request(r, valid=valid)
+        if sc.fr == "r" and unit == 0:
+            unit = 1
+        sc.nrid += 1
+        rid = f"r{sc.nrid}"
+        sc.reqs[rid] = dict(d, unit=unit)
+        style = style or r.pick(["R", "R", "R", "C", "T"])
+        if style in ("R", "C") and queue + 2 >= sc.q:
+            style = "T"          # async senders must never wait for capacity (outside the model)
+        t = timeout if timeout is not None else r.pick([20, 50, 50, 100, 1000])
+        return f"{style}{h}.{rid}.{kind}.{unit}.{t}.{args}"
+
+    if not alive:
+        sc.done = r.chance(1, 2)
+        return submit(style=r.pick(["R", "C", "T"])) if live else "A5"
+    if not live:
+        return r.pick(["A50", "N", "V", "F20"])
+    if phase == "none":
+        k = r.below(10)
+        if k < 5:
+            return "N"
+        if k < 6:
+            return "V"
+        if k < 7:
+            return f"F{r.pick([0, 10, 30])}" if focus != "det" else f"F{r.pick([10, 30])}"
+        if k < 8:
+            return r.pick([f"E{h}", f"D{h}"])
+        return submit()
+    if phase in ("waitEnabled", "failFor"):
+        k = r.below(8)
+        if k < 3:
+            return submit()
+        if k < 5:
+            return r.pick([f"E{h}", f"E{h}", f"D{h}"])
+        if k < 6:
+            return f"A{r.pick([5, 10, 30, 40])}"
+        if k < 7:
+            return r.pick([f"S{h}", f"H-{h}", "H+", "K", f"L{r.pick(ALL_LEVELS)}"])
+        return "A1"
+    # in a session
+    if st.get("enabled") == "0" and r.chance(1, 2):
+        return f"E{h}"
+    if pos == "inflight":
+        rid = st.get("rid")
+        d = sc.reqs.get(rid)
+        tx = int(st.get("tx", "0"))
+        deadline = int(st.get("deadline", "0"))
+        k = r.below(24)
+        if d is None:
+            return "A10"
+        unit = d["unit"]
+
+        def fr(t, pdu):
+            if sc.fr == "r" and not rtu_response_delimitable(pdu):
+                pdu = good_reply(r, d)
+            return cl_frame(sc.fr, t % 65536, unit, pdu)
+        if k < 7:       # the genuine (or perturbed) reply, whole
+            return "X" + hx(fr(tx, reply_variant(r, d) if r.chance(1, 3) else good_reply(r, d)))
+        if k < 10:      # split reply
+            f = fr(tx, good_reply(r, d))
+            cut = r.rng(1, max(1, len(f) - 1))
+            return "X" + hx(f[:cut]) if len(f) > 1 else "X" + hx(f)
+        if k < 12:      # stale / future / duplicate ids (MBAP); on RTU any frame matches
+            return "X" + hx(fr(tx + r.pick([-1, -2, 1, 2, 65535, 32768]), good_reply(r, d)))
+        if k < 13:      # reply + unsolicited frame with the next id in one delivery (finding F16)
+            return "X" + hx(fr(tx, good_reply(r, d)) + fr(tx + 1, good_reply(r, d)))
+        if k < 14:      # reply + first bytes of another frame
+            f2 = fr(tx + 1, good_reply(r, d))
+            return "X" + hx(fr(tx, good_reply(r, d)) + f2[:r.rng(1, max(1, len(f2) - 1))])
+        if k < 15:
+            return "X" + hx(r.bytes(r.rng(1, 9)))
+        if k < 17:      # around the deadline
+            rem = max(0, deadline - now)
+            return f"A{max(0, rem + r.pick([-1, 0, 0, 1]))}" if rem < 100000 else "A50"
+        if k < 18:
+            return r.pick(["Xe", "Xf"])
+        if k < 20:
+            return submit()
+        if k < 21:
+            return r.pick([f"D{h}", f"S{h}", f"L{r.pick(ALL_LEVELS)}"])
+        if k < 22:
+            return r.pick([f"H-{h}", "H+", "K"])
+        return f"A{r.pick([1, 5, 10])}"
+    # idle in a session
+    k = r.below(16)
+    if k < 8:
+        return submit(valid=r.chance(5, 6))
+    if k < 9:
+        return "W"
+    if k < 10:      # unsolicited frame while idle
+        nt = int(st.get("nexttx", "0"))
+        pdu = bytes([3, 2, 0x12, 0x34])
+        return "X" + hx(cl_frame(sc.fr, r.pick([nt, nt, nt + 1, 0]) % 65536, 1, pdu))
+    if k < 11:
+        return "X" + hx(r.bytes(r.rng(1, 12)))
+    if k < 12:
+        return r.pick(["Xe", "Xf"])
+    if k < 13:
+        return r.pick([f"D{h}", f"S{h}", f"L{r.pick(ALL_LEVELS)}"])
+    if k < 14:
+        return r.pick([f"H-{h}", "H+", "K"])
+    return f"A{r.pick([1, 10, 60])}"
+
+
+def gen_cl_task(r, n, tier, focus="mix"):
+    """C10-C12 (and the client role of C05/C07/C20): event scripts for the client task, steered by
+    the model state after each prefix (lock-step rounds through the Lean driver, `clq`)"""
+    max_steps = 24 if tier == "thorough" else 14
+    scripts = []
+    for i in range(n):
+        fr = "r" if r.chance(1, 4) else "t"
+        q = r.pick([1, 2, 4, 16, 16, 16])
+        m = r.pick([0, 0, 1, 2, 3])
+        sc = ClScript(r, fr, q, m, decode_tok(r))
+        sc.steps = ["N", "E0"] if r.chance(3, 4) else []
+        scripts.append(sc)
+    for _ in range(max_steps):
+        active = [sc for sc in scripts if not sc.done]
+        if not active:
+            break
+        states = model_states([sc.line("clq") for sc in active])
+        for sc, st in zip(active, states):
+            sc.steps.append(cl_next_step(r, sc, st, focus))
+            if len(sc.steps) >= max_steps or (len(sc.steps) > 4 and r.chance(1, 12)):
+                sc.done = True
+    for sc in scripts:
+        # let outstanding deadlines pass so that everything that can complete does
+        sc.steps.append("A1100")
+        yield sc.line()
+
+
+def gen_cl_txwrap(r, n, tier):
+    """C11: more than 65536 consecutive requests would be too slow in lock-step; the wrap is
+    reached by requests that fail while they are serialised (they consume an id without I/O)"""
+    k = 70000 if tier == "thorough" else 0
+    if k:
+        steps = ["N", "E0"]
+        for i in range(k):
+            steps.append(f"T0.w{i}.wC.1.50.0.n1969s1")      # consumes a transaction id, nothing sent
+        steps += ["R0.z.rh.1.50.0.1", "A60"]
+        yield "cl t d000 q4 m0 " + ",".join(steps)
+    # the wrap itself with real requests: 3 ids before and after 65535 are covered by theorems
+
+
 def rtu_response_delimitable(pdu):
     """the RTU response parser derives the same length (so the frame is 'well-framed')"""
     if not pdu:
@@ -1201,6 +1393,27 @@ def gen_dec_srv(r, n, tier):
             yield v
 
 
+def gen_dec_cl(r, n, tier):
+    base = list(gen_cl_task(Rng(r.next(), "a"), n, "quick")) + list(gen_cl_resp(Rng(r.next(), "b"), n // 4, "quick"))[-(n // 4):]
+    for c in base:
+        # a set-decode command takes a queue slot: only inject where the queue is roomy
+        tok = c.split(" ")
+        inject = tok[3] == "q16"
+        for v in decode_variants(r, c):
+            if not inject and v.split(" ")[5] != tok[5]:
+                continue
+            yield v
+
+
+def gen_cl_fuzz(r, n, tier):
+    """C07, client role: scripts at decode levels cycling through all 36, peers sending mutated
+    and random replies"""
+    for i, c in enumerate(gen_cl_task(r, n, tier)):
+        tok = c.split(" ")
+        tok[2] = ALL_LEVELS[i % len(ALL_LEVELS)]
+        yield " ".join(tok)
+
+
 def gen_dec_rdr(r, n, tier):
     base = list(gen_rdr_mbap(Rng(r.next(), "a"), n, "quick"))[-n:] + list(gen_rdr_rtu(Rng(r.next(), "b"), n, "quick"))[-n:]
     for c in base:
@@ -1209,12 +1422,16 @@ def gen_dec_rdr(r, n, tier):
 
 
 SUITES = {
+    "cl_task": gen_cl_task,
+    "cl_txwrap": gen_cl_txwrap,
     "cl_enc": gen_cl_enc,
     "cl_resp": gen_cl_resp,
     "srv_fuzz": gen_srv_fuzz,
     "rdr_fuzz": gen_rdr_fuzz,
     "dec_srv": gen_dec_srv,
     "dec_rdr": gen_dec_rdr,
+    "dec_cl": gen_dec_cl,
+    "cl_fuzz": gen_cl_fuzz,
     "tls": gen_tls,
     "net": gen_net,
     "life": gen_life,
